@@ -345,7 +345,8 @@ end examples
 
 `Compile.linearize m tol maxSteps` is the whole of `Linearizer::linearize` (normalise → bound inference → enforceable
 → apply_to_domain → lowering).  C01 (`c01_compile_partial`) and C02 (`c02_compile_partial`) say what its output `lm`
-means; here they are composed with an ABSTRACT solver contract (`Rooc/Proofs/Compose.lean`):
+means; here they are composed with an ABSTRACT solver contract (`Rooc/Proofs/ComposeContract.lean`; composition lemmas in
+`Rooc/Proofs/Compose.lean`):
 
 * `LinOptimal lm ρ'` — `ρ'` satisfies every row and domain of `lm` and no such point has a strictly better linear
   objective (`Sem.linObjective`, offset included; `Ref.better`);
